@@ -29,7 +29,7 @@ pub fn run(cx: &mut Ctx) {
     if let Some(facts) = units::load_facts(cx, "C19.N1") {
         let rule = "C19.N1";
         cx.rule(rule, "panic-obligation inventory of cformat.rs from resolved MIR: every unwrap/expect, panic, indexing and every Overflow/Bounds/Division assert belongs to a (function, kind) row of the reviewed site table with its discharge; a new site is an undischarged obligation");
-        cx.floor(rule, 15);
+        cx.floor(rule, 10);
         if let Some(cf) = facts.krate("rustpython_format") {
             let inv = panic_inventory(cf, &|f| f.ends_with("format/src/cformat.rs"));
             cx.unit("panic-capable sites in cformat.rs", inv.values().sum());
@@ -54,7 +54,7 @@ pub fn run(cx: &mut Ctx) {
 fn peek_dominance(cx: &mut Ctx, src: &sm::Src) {
     let rule = "C19.D.peek";
     cx.rule(rule, "D.peek: every `iter.next().unwrap()` in cformat.rs is dominated, with no intervening iter.next(), by `if let / while let Some(..) = iter.peek()` on the same iterator");
-    cx.floor(rule, 9);
+    cx.floor(rule, 6);
     let mut fns: Vec<(String, &syn::Block)> = vec![];
     for f in src.all_free_fns() {
         fns.push((f.sig.ident.to_string(), &f.block));
